@@ -605,6 +605,10 @@ def execute(ctx, case, check="seq", record=True):
             env.entries, env.links = entries, links
             if entries:
                 env.materialised += 1
+            if violated:
+                # whatever was damaged (HEAD, index, config, ...) would only produce secondary alarms in later steps
+                outcomes.append((step["op"], outcome))
+                break
             if outcome == "ok" and "tree" in step and step["op"] in WHOLE_TREE_OPS | {"reset_mixed"}:
                 env.index_tree = env.tree_ids[step["tree"]]
             if step["op"] == "clone":
